@@ -82,6 +82,22 @@ def c01(chk, tier):
         chk.cov['rule'] = ('(a) codec chain collect->encode->transmit->retrieve->decode->emit on every string over {a,b} up to 10 (13) x capacities, '
                            '{a,b,c} up to 6 (8), runs around 4/259, every alphabet size; ') + chk.cov['rule']
 
+def bwt(chk, tier):
+    stats, viols, raw = run_leg('bwt', tier)
+    if stats is None:
+        chk.leg('function-level-bwt', status='unbound: harness does not compile against this tree', detail=raw[-300:])
+        return
+    chk.leg('function-level-bwt', **{k: v for k, v in stats.items() if k != 'leg'})
+    for v in viols[:8]:
+        chk.violation('C01|fn|bwt|%s' % v.split(' input ')[0][:60], 'C01 function-level (divbwt vs sorted cyclic rotations): ' + v,
+                      {'engine': 'codecx', 'cmdline': '%s bwt %s' % (exe('fast'), tier), 'variant': 'fast'})
+    chk.cov['evaluations'] += stats.get('strings', 0)
+    chk.cov['distinct_nontrivial'] += stats.get('strings', 0)
+    chk.cov['rule'] = ('(a2) divbwt() == last column of the sorted cyclic rotations (reference: prefix doubling) and origin row == input, on every string '
+                       'over {a,b} up to 16 (20), {a,b,c} up to 10 (12), powers of every word over {a,b} of length <= 7 (9) cut at 40..2300 (12000) with '
+                       'no / one changed byte, every prefix up to 1500 (6000) of the Fibonacci, Thue-Morse, paper-folding and period-doubling words, '
+                       '256-symbol arithmetic sequences, two/three-run blocks; ') + chk.cov['rule']
+
 def write_streams(path, streams):
     with open(path, 'wb') as f:
         for s in streams:
